@@ -413,6 +413,15 @@ def jobs(tier):
                             ("SparseMLPModel", (3, 1, 1, 2), 2, True)] + ([] if q else [("SparseLinearModel", (4, 1, 2), 3, True), ("SparseLinearModel", (3, 2, 2), 1, True), ("SparseMLPModel", (3, 1, 1, 2), None, False)]):
         out.append({"name": f"path/{fam}/{cm.shape_str(sh)}/bs{bs}/{'precomputed' if yg else 'computed'}", "target": "checks.c10:job_path",
                     "kwargs": dict(family=fam, shape=sh, batch_size=bs, y_given=yg), "timeout": 280 if q else 1800})
+    # longer inputs (several full batches plus a trailing partial one) under a few fixed permutations per epoch
+    long_perms = lambda n: [(tuple(range(n)),), (tuple(range(n))[::-1],), (tuple((i * 3 + 2) % n for i in range(n)),)]
+    for n_, bss in ([(7, (2, 3, 5))] if q else [(7, (2, 3, 5)), (10, (3, 4, 7)), (13, (4, 6))]):
+        for bs in bss:
+            for ml in (False, True):
+                out.append({"name": f"LinearModel/{n_}x1x2/mmd_ova/bs{bs}/it1{'/mlcl' if ml else ''}/long", "target": "checks.c10:job",
+                            "kwargs": dict(family="LinearModel", shape=(n_, 1, 2), gemini="mmd_ova", batch_size=bs, max_iter=1, perms=long_perms(n_), mlcl=ml), "timeout": 280 if q else 1800})
+        out.append({"name": f"path/SparseLinearModel/{n_}x1x2/bs{bss[1]}/precomputed/long", "target": "checks.c10:job_path",
+                    "kwargs": dict(family="SparseLinearModel", shape=(n_, 1, 2), batch_size=bss[1], y_given=True), "timeout": 280 if q else 1800})
     for fam, sh, gem, bs, it, ml in configs:
         n = cm.dims(fam, sh)["n"]
         out.append({"name": f"{fam}/{cm.shape_str(sh)}/{gem}/bs{bs}/it{it}{'/mlcl' if ml else ''}", "target": "checks.c10:job",
